@@ -47,8 +47,9 @@ INVARIANT FlagCoversData
 """
 
 
-def child(scen, path, crash, flush, trace_out="-", mode="kill"):
-    env = dict(os.environ, PYTHONPATH=core.REPO + ":" + core.VERIF, OMP_NUM_THREADS="1", VERIF_CRASH_MODE=mode)
+def child(scen, path, crash, flush, trace_out="-", mode="kill", fail_step=0):
+    env = dict(os.environ, PYTHONPATH=core.REPO + ":" + core.VERIF, OMP_NUM_THREADS="1", VERIF_CRASH_MODE=mode,
+               VERIF_FAIL_STEP=str(fail_step))
     p = subprocess.run([core.PY, "-m", "harness.ptfile_child", scen, path, str(crash), str(flush), trace_out],
                        env=env, cwd=core.VERIF, stdout=subprocess.PIPE, stderr=subprocess.STDOUT, text=True,
                        timeout=300)
@@ -86,9 +87,14 @@ def classify(path):
 def crash_job(job):
     scen, k, f, allowed, tmpdir, full = job[:6]
     mode = job[6] if len(job) > 6 else "kill"
-    path = os.path.join(tmpdir, "crash_%s_%d_%d_%s.h5" % (scen, k, f, mode))
-    rc, outp = child(scen, path, k, f, mode=mode)
+    fail_step = job[7] if len(job) > 7 else 0
+    path = os.path.join(tmpdir, "crash_%s_%d_%d_%s_%d.h5" % (scen, k, f, mode, fail_step))
+    rc, outp = child(scen, path, k, f, mode=mode, fail_step=fail_step)
     res = []
+    if fail_step and rc == 0:
+        if os.path.exists(path):
+            os.remove(path)
+        return [{"what": "not-reached"}]      # the run has fewer propagation steps: nothing was interrupted
     if rc != 17:
         return [{"what": "harness", "detail": "child rc=%s %s" % (rc, outp[-200:])}]
     if not os.path.exists(path):
@@ -111,20 +117,41 @@ def crash_job(job):
 def mode_job(job):
     import oqupy
     from oqupy.process_tensor import FileProcessTensor
-    row, tmpdir = job
+    row, tmpdir = job[:2]
+    late = len(job) > 2 and job[2]     # the existing file appears at the last moment: another writer completes it
+    #                                    between any existence test of this writer and its opening of the file
     mode, existing, named, out = row["mode"], row["existing"], row["named"], row["out"]
     res = []
-    path = os.path.join(tmpdir, "mode_%s_%s_%s.h5" % (mode, existing, named))
+    path = os.path.join(tmpdir, "mode_%s_%s_%s_%s.h5" % (mode, existing, named, late))
     if not named and mode == "read":
         return []                         # read needs a name
     if not named and existing:
         return []                         # a temporary name never collides with an existing file
     marker = None
-    if existing:
+    import oqupy.process_tensor as ptmod
+    real_h5py = ptmod.h5py
+    state = {"marker": None, "err": None}
+
+    def other_writer():
         rc, outp = child("export2", path, 0, 0)
         if rc != 0:
-            return [{"what": "harness", "detail": outp[-200:]}]
-        marker = open(path, "rb").read()
+            state["err"] = outp[-200:]
+            return
+        state["marker"] = open(path, "rb").read()
+    if existing and not late:
+        other_writer()
+    if existing and late:
+        class LateProxy:
+            def File(self, filename, *a, **kw):
+                if os.path.abspath(str(filename)) == os.path.abspath(path) and state["marker"] is None and not state["err"]:
+                    other_writer()
+                return real_h5py.File(filename, *a, **kw)
+
+            def __getattr__(self, k):
+                return getattr(real_h5py, k)
+        ptmod.h5py = LateProxy()
+    if state["err"]:
+        return [{"what": "harness", "detail": state["err"]}]
     opened = True
     pt = None
     try:
@@ -134,6 +161,13 @@ def mode_job(job):
             pt = FileProcessTensor(mode=mode, filename=path if named else None, hilbert_space_dimension=2)
     except Exception as ex:  # pylint: disable=broad-except
         opened = False
+    finally:
+        ptmod.h5py = real_h5py
+    if state["err"]:
+        return [{"what": "harness", "detail": state["err"]}]
+    marker = state["marker"]
+    if existing and late and marker is None:
+        return [{"what": "harness", "detail": "the writer never opened the file"}]
     if opened != out["opens"]:
         res.append({"what": "open-outcome", "expected": out["opens"], "observed": opened})
     if existing and out["intact"]:
@@ -224,25 +258,40 @@ def run(ctx):
                 if quick and k % 3:
                     continue
                 jobs.append((scen, k, k, set(cls[k:k + 1]) | {"error", "warn"}, tmpdir, full, "raise"))
+            # ... or between file operations: in the j-th propagation step of a file-backed PT-TEMPO run (the file
+            # exists, the flag is up, nothing may declare it complete while the stack unwinds)
+            if scen.startswith("pt"):
+                nsteps = int("".join(ch for ch in scen if ch.isdigit()))
+                for j in range(1, nsteps + 2):
+                    jobs.append((scen, 0, 0, {"error", "warn"}, tmpdir, full, "raise", j))
         res = core.pmap(crash_job, jobs, chunksize=2)
         for job, mm in zip(jobs, res):
             scen, k, f = job[0], job[1], job[2]
             how = job[6] if len(job) > 6 else "kill"
+            if len(job) > 7:
+                how = "raise in propagation step %d" % job[7]
             ctx.case({"scenario": scen, "crash_after_op": k, "flush_after_op": f, "death": how}, nontrivial=f > 0)
             for x in mm:
                 if x["what"] == "harness":
                     raise core.MachineryError(x["detail"])
+                if x["what"] == "not-reached":
+                    if job[7] == 1:
+                        raise core.MachineryError("propagation-step interruption never reached in %s" % scen)
+                    continue
                 ctx.violation("C17:%s:%s" % (scen.rstrip("0123456789TD"), x["what"]),
                               "%s after op %d, flush after op %d: %s" % (how, k, f, x),
-                              {"scenario": scen, "crash": k, "flush": f, "death": how})
+                              {"scenario": scen, "crash": k, "flush": f, "death": job[6] if len(job) > 6 else "kill",
+                               "fail_step": job[7] if len(job) > 7 else 0})
         # mode matrix
-        mjobs = [(row, tmpdir) for row in (modes or [])]
-        for (row, _), mm in zip(mjobs, core.pmap(mode_job, mjobs)):
-            ctx.case({"mode": row["mode"], "existing": row["existing"], "named": row["named"]})
+        mjobs = [(row, tmpdir, False) for row in (modes or [])]
+        mjobs += [(row, tmpdir, True) for row in (modes or []) if row["existing"] and row["named"] and row["mode"] != "read"]
+        for (row, _, late), mm in zip(mjobs, core.pmap(mode_job, mjobs)):
+            ctx.case({"mode": row["mode"], "existing": row["existing"], "named": row["named"], "appears_in_the_last_moment": late})
             for x in mm:
                 if x["what"] == "harness":
                     raise core.MachineryError(x["detail"])
-                ctx.violation("C17:modes:%s" % x["what"], "%s: %s" % (row, x), {"mode_row": row})
+                ctx.violation("C17:modes:%s%s" % (x["what"], ":race" if late else ""), "%s late=%s: %s" % (row, late, x),
+                              {"mode_row": row, "late": late})
     finally:
         shutil.rmtree(tmpdir, ignore_errors=True)
     ctx.rule = ("for each writer scenario: the recorded h5py operation trace validated by TLC; every crash point k "
@@ -258,8 +307,13 @@ def replay(ctx, rep):
     tmpdir = tempfile.mkdtemp(prefix="vptf_")
     try:
         if "crash" in c:
-            mm = crash_job((c["scenario"], c["crash"], c["flush"], {"error", "warn"}, tmpdir, {}, c.get("death", "kill")))
+            mm = crash_job((c["scenario"], c["crash"], c["flush"], {"error", "warn"}, tmpdir, {}, c.get("death", "kill"),
+                            c.get("fail_step", 0)))
             for x in mm:
+                ctx.violation("C17:replay:" + x["what"], str(x), c)
+        if "mode_row" in c:
+            core._init_worker()
+            for x in mode_job((c["mode_row"], tmpdir, c.get("late", False))):
                 ctx.violation("C17:replay:" + x["what"], str(x), c)
         ctx.case(c)
     finally:
